@@ -517,12 +517,24 @@ func cfbRunConnSession(tr *vk.Trace, s cfbSession, classes map[string]int) {
 		}
 		c.SetCipher(CFB8.NewCFB8Encrypt(blk, iv), CFB8.NewCFB8Decrypt(blk, iv))
 	}
+	// the two settings are independent: either order, on either end
+	orderA, orderB := rng.Intn(2) == 0, rng.Intn(2) == 0
+	nmk := 0
 	mk := func(end *rconMemEnd) *mcnet.Conn {
 		c := mcnet.WrapConn(end)
+		thrFirst := orderA
+		if nmk++; nmk == 2 {
+			thrFirst = orderB
+		}
+		if thrFirst {
+			c.SetThreshold(thr)
+		}
 		if !late {
 			enable(c)
 		}
-		c.SetThreshold(thr)
+		if !thrFirst {
+			c.SetThreshold(thr)
+		}
 		return c
 	}
 	tr.Add(map[string]any{"k": "reset", "thr": thr, "scn": s.ID, "keylen": len(key)})
